@@ -93,6 +93,13 @@ def render(c):
             w = (w + ' and ' if w else '') + 't3.b = t1.b'
             return 'select %s from int1.t1, int2.t2, int1.t3 where %s' % (tg, w)
         return 'select %s from int1.t1, int2.t2%s' % (tg, ' where ' + w if w else '')
+    if sh == 'joinon':
+        on = {'eq&t2c=1': 't1.a = t2.a and t2.c = 1', 'eq&not-t2c=1': 't1.a = t2.a and not (t2.c = 1)', 'not-eq': 'not t1.a = t2.a',
+              'eq|t2c=1': 't1.a = t2.a or t2.c = 1', 'eq&t1b=1': 't1.a = t2.a and t1.b = 1', 't1a<t2a': 't1.a < t2.a',
+              'eq&not(t2c=1|t1b=1)': 't1.a = t2.a and not (t2.c = 1 or t1.b = 1)', 'eq&1=t2c': 't1.a = t2.a and 1 = t2.c',
+              'eq&t2c-null': 't1.a = t2.a and t2.c is null', 'eq&t2c-in': 't1.a = t2.a and t2.c in (1, 2)',
+              'eq&t2c-between': 't1.a = t2.a and t2.c between 1 and 2', 'not(eq&t2c=1)': 'not (t1.a = t2.a and t2.c = 1)'}[c['on']]
+        return 'select * from int1.t1 %s int2.t2 on %s%s' % (KIND[c['kind']], on, where(c['where']))
     if sh == 'scalar':
         return 'select * from int1.t1 where a %s (select %s(a) from int2.t2)' % (c['cmp'], c['f'])
     if sh == 'single':
